@@ -48,25 +48,25 @@ _B_COVER = ('%s: instruction id symbolic over [1, _kIdCount) in one query: name 
             ' zero terminated, and the id lies inside _inst_name_index.data[first letter] (start != 0).' + _B_TXT)
 _B_ALIAS = 'x86: alias index symbolic over [0, x86::InstDB::kAliasTableSize) in one query; alias text = decode(alias_name_index_table[i]) over alias_name_string_table; '
 _NAMES = {
-    'h_names_x86_all': dict(bounds=_B_X86, mem_gb=12, timeout=2400, rotate=(0, 2), unwindset=_x86_uw(11)),
+    'h_names_x86_all': dict(bounds=_B_X86, mem_gb=10, timeout=2400, rotate=(0, 2), unwindset=_x86_uw(11)),
     'h_names_x86_cover': dict(bounds=_B_COVER % 'x86', mem_gb=3, timeout=600),
     'h_names_a64_cover': dict(bounds=_B_COVER % 'AArch64', mem_gb=2, timeout=600, unwindset=None),
     'h_names_a64_letters': dict(bounds='AArch64: the letters j k q v (no h_names_a64_<l> harness) have an empty name index span; max_name_length <= 20 (text bound of the harnesses)', mem_gb=1, timeout=300, unwindset=None),
     'h_names_x86_alias': dict(bounds=_B_ALIAS + 'string_to_inst_id(text, size) == alias_index_to_inst_id_table[i], a defined id; the text is 1..max_name_length characters a-z 0-9 _ starting with a letter.'
                               ' Loop bounds: find_instruction <= 7 steps (the spans of the letters aliases start with have < 128 ids; checked as an unwinding assertion), find_alias <= 6 steps.' + _B_TXT,
-                              mem_gb=8, timeout=1200, unwindset=_x86_uw(8)),
+                              mem_gb=6, timeout=1200, unwindset=_x86_uw(8)),
     'h_names_x86_alias_names': dict(bounds=_B_ALIAS + 'id = alias_index_to_inst_id_table[i] is defined; inst_id_to_string(id, kAliases) (forms "jnbe|ja" and "cmov.nbe|a") lists the alias text and the primary name among its alternatives;'
                                     ' where asmjit prints no list the pair (alias, primary name) must be (sal, shl) or (wait, fwait) (Intel SDM); the alias differs from the primary name.' + _B_TXT, mem_gb=3, timeout=600),
     'h_names_x86_alias_miss': dict(bounds=_B_ALIAS + 'one character (position symbolic) replaced by one of . | ~ A (no name or alias contains them: h_names_x86_cover, h_names_x86_alias); string_to_inst_id must return kIdNone.' + _B_TXT,
-                                   mem_gb=8, timeout=2400, tiers=('thorough',), unwindset=_x86_uw(8)),
+                                   mem_gb=7, timeout=2400, tiers=('thorough',), unwindset=_x86_uw(8)),
 }
 # AArch64 letters: the linear scan over spans of 300..451 ids costs 80..170 s per letter (symbolic execution of the scan is quadratic in its
-# length); the short spans run in every quick run, the long ones in one of four groups chosen by VERIF_SEED; thorough runs all of them.
+# length, 2.2..3.7 GB); the short spans run in every quick run, the long ones in one of four groups chosen by VERIF_SEED; thorough runs all.
 _A64_ALWAYS = 'fghwyz'
-_A64_GROUP = {0: 'estu', 1: 'abcd', 2: 'ilm', 3: 'noprx'}
+_A64_GROUP = {0: 'et', 1: 'abcds', 2: 'mn', 3: 'iloprux'}     # the even seeds also run h_names_x86_all (310 s, 7.7 GB)
 for _fn in _names_fns:
     _a64 = '_a64_' in _fn
-    _o = dict(mem_gb=6, timeout=1500, unwindset=_a64_uw(800) if _a64 else None, rotate=None, tiers=('quick', 'thorough'))
+    _o = dict(mem_gb=5 if _fn[-1] in 'ls' else 4, timeout=1500, unwindset=_a64_uw(800) if _a64 else None, rotate=None, tiers=('quick', 'thorough'))
     if _fn in _NAMES: _o.update(_NAMES[_fn])
     else:
         _l = _fn[-1]
@@ -81,8 +81,15 @@ OUTSIDE = [o for o in OUTSIDE if not o.startswith('instruction-name round trip')
     'names: inst_id_to_string for undefined ids (error path), AArch64 ids with condition-code bits above InstIdParts::kRealId, appending to a non-empty or heap-allocated String',
     'names: InstStringifyOptions::kAliases rendering is looked at only for the ids the 44 aliases map to',
     'names: the dispatch by Arch in InstAPI::inst_id_to_string / string_to_inst_id (core/inst.cpp); the arch-specific functions are called directly',
-    'names: quick tier runs h_names_x86_all when VERIF_SEED is even and one of four groups of the long AArch64 letters per seed (estu / abcd / ilm / noprx); thorough runs all',
+    'names: quick tier runs h_names_x86_all when VERIF_SEED is even and one of four groups of the long AArch64 letters per seed (et / abcds / mn / iloprux); thorough runs all',
 ]
-ASSUMPTIONS += ['names: memcpy / memcmp / bcmp are plain byte loops under CBMC for destinations of at most 64 bytes (checks/C13/names_mem.c); the native twins use libc and translator validation compares the two',
+ASSUMPTIONS += ['names: under CBMC memcmp / bcmp are plain byte loops and memcpy is a plain byte loop for destination objects of at most 64 bytes, CBMC\'s own model otherwise (checks/C13/names_mem.c); the native twins use libc and translator validation compares the two',
                 'names: malloc / realloc are wrapped (include/no_heap.h): while the code under test runs they return NULL and are counted; every harness asserts the count is 0',
                 'names: SAL = SHL and WAIT = FWAIT (Intel SDM) are the oracle for the two aliases asmjit renders without an alias list']
+
+# ---- forms with five and six operands (vpermil2ps/pd, pcmpestri/m with the implicit operands written out, cmpxchg8b/16b): not in the generated family
+UNITS.append(Unit('ops56', harness=['h_ops56.cpp'], repo_units=X86_UNITS))
+import re as _re
+for _fn in _re.findall(r'^HARNESS (h_\w+)\(\)', open(os.path.join(os.path.dirname(os.path.abspath(__file__)), 'h_ops56.cpp')).read(), _re.M):
+    HARNESSES.append(Harness('ops56', _fn, unwind=17, mem_gb=4, timeout=600, validate_runs=200,
+                             bounds='instruction id, vector length, register / memory form constant per harness; register ids, displacement, immediate symbolic; strict validation on and off'))
